@@ -257,11 +257,14 @@ def synthetic_nestings(b, cases, real_html, kinds):
         st["with_nested_a_href"] += 1
         order = c29_html.href_order(t)
         md_links = [h for h in order if not h.startswith(c29_gen.GEN_PREFIX) and h != c29_gen.RAW_HREF]
-        kind_of = {}
+        kind_at = {}                      # document-order index of an <a href> tag -> how that link was written
         if len(md_links) == len(ks):
-            for h, k in zip(md_links, ks):
-                kind_of.setdefault(h, set()).add(k)
-        for outer, inner, prior in c29_html.nested_pairs(t):
+            j = 0
+            for pos, h in enumerate(order):
+                if not h.startswith(c29_gen.GEN_PREFIX) and h != c29_gen.RAW_HREF:
+                    kind_at[pos] = ks[j]
+                    j += 1
+        for outer, inner, prior, opos in c29_html.nested_pairs_idx(t):
             if not inner.startswith(c29_gen.GEN_PREFIX):
                 st["authored_only_nestings"] += 1
                 continue
@@ -271,8 +274,7 @@ def synthetic_nestings(b, cases, real_html, kinds):
             elif outer.startswith(c29_gen.GEN_PREFIX):
                 kind = None
             else:
-                k = kind_of.get(outer, set())
-                kind = next(iter(k)) if len(k) == 1 else "unclassified"
+                kind = kind_at.get(opos, "unclassified")
                 if kind == "autolink":
                     kind = "inline"
             if kind == "unclassified":
